@@ -365,20 +365,6 @@ def r_category_table(repo, rep, R):
         raise AnalysisError('%s: run() has %d parameters' % (REL, len(params)))
     p_doc, p_scores, p_cats, p_bin, p_un, p_roots = params[:6]
     w = lambda n: '%s:%s run' % (REL, n.lineno)
-    # duplicate rejection
-    ok = False
-    first_use = None
-    for s in run.body:
-        if isinstance(s, ast.If) and any(isinstance(x, ast.Raise) for x in s.body):
-            t = src(s.test).replace(' ', '')
-            if t in ('len(set(%s))!=len(%s)' % (p_cats, p_cats), 'len(%s)!=len(set(%s))' % (p_cats, p_cats)):
-                ok = True
-                break
-        if any(isinstance(x, ast.Name) and x.id == p_cats for x in ast.walk(s)) and not isinstance(s, ast.FunctionDef):
-            first_use = s
-            break
-    rep.check(ok, R, w(run), 'run:duplicates', 'duplicate categories are rejected before the list is used',
-              'the category list is used (line %s) before duplicates are rejected' % getattr(first_use, 'lineno', '?'))
     # table + index
     table = index = None
     for s in run.body:
@@ -391,6 +377,31 @@ def r_category_table(repo, rep, R):
                 if src(g.iter).replace(' ', '') == 'enumerate(%s)' % table and isinstance(g.target, ast.Tuple) \
                         and src(s.value.key) == src(g.target.elts[1]) and src(s.value.value) == src(g.target.elts[0]):
                     index = s.targets[0].id
+    # duplicate rejection: before the list (or the table / index made from it) is put to any other use --
+    #   len(set(cats)) != len(cats)   or, once the position index exists,   len(index) != len(table)
+    ok = False
+    first_use = None
+    setup = set()
+    for s in run.body:
+        if isinstance(s, ast.Assign) and len(s.targets) == 1 and isinstance(s.targets[0], ast.Name) and s.targets[0].id in (table, index):
+            setup.add(id(s))
+    lens = lambda x, y: ('len(%s)!=len(%s)' % (x, y), 'len(%s)!=len(%s)' % (y, x))
+    accepted = set(lens('set(%s)' % p_cats, p_cats))
+    if table and index:
+        accepted |= set(lens(index, table)) | set(lens(index, p_cats)) | set(lens('set(%s)' % table, table))
+    for s in run.body:
+        if isinstance(s, ast.If) and any(isinstance(x, ast.Raise) for x in s.body):
+            t = src(s.test).replace(' ', '')
+            if t in accepted:
+                ok = True
+                break
+        if id(s) in setup:
+            continue
+        if any(isinstance(x, ast.Name) and x.id in (p_cats, table, index) for x in ast.walk(s)) and not isinstance(s, ast.FunctionDef):
+            first_use = s
+            break
+    rep.check(ok, R, w(run), 'run:duplicates', 'duplicate categories are rejected before the list is used',
+              'the category list is used (line %s) before duplicates are rejected' % getattr(first_use, 'lineno', '?'))
     rep.check(table is not None and index is not None, R, w(run), 'run:table',
               'categories are copied into a private list and indexed by position (id = enumerate index)',
               'private category list / position index not found')
